@@ -94,6 +94,13 @@ pub fn update_position_reply(
         _ => {
             swap_margin = Uint128::zero();
 
+            // the vAMM rounds the base amount of a reducing trade against the trader; when the order is
+            // within a unit of the whole position's value that can exceed the position, which would flip
+            // its sign while it keeps its direction
+            if signed_output.abs() > position.size.abs() {
+                return Err(StdError::generic_err("Reduce exceeds position size"));
+            }
+
             // realized_pnl = unrealized_pnl * close_ratio
             let realized_pnl = if !position.size.is_zero() {
                 swap.unrealized_pnl.checked_mul(signed_output.abs())? / position.size.abs()
